@@ -94,8 +94,8 @@ def run_kani_unit(unit, scratch, tier, seed, repo, pid=None):
         ur.undecided.append(f"injection: {e}")
         return ur
     hs = [h for h in cfg["harnesses"] if (tier == "thorough" or h.get("tier", "quick") == "quick")]
-    if pid:
-        hs = [h for h in hs if pid in h["props"]]
+    # every quick-tier harness of the unit is run, whatever property it is attributed to: a harness that fails under a
+    # sibling property makes this property undecided (driver: sibling rule) instead of going unseen
     if not hs:
         ur.wall = time.time() - t0
         return ur
@@ -128,6 +128,9 @@ def run_kani_unit(unit, scratch, tier, seed, repo, pid=None):
         ur.solver_s += r["time"]
         kind = h.get("kind", "complete")
         label = f"{unit}::{h['name']}"
+        if not hasattr(ur, "harness_props"):
+            ur.harness_props = {}
+        ur.harness_props[label] = list(h["props"])
         if kind == "bounded":
             ur.bounded.append(f"{label}: bounded stand-in ({h.get('bound', '?')}); not counted as proved")
         fails = r["failed"]
